@@ -282,10 +282,32 @@ func vC09_invOf(tr *tree, all []*PID) {
 	vAssert(tr.counter.Load() == int64(cnt), "Inv: the counter equals the number of registered nodes")
 }
 
-// ---- tree operations: K arbitrary operations over a pool of 4 PIDs against a reference model, Inv_tree after each ----
+// ---- tree operations: one arbitrary operation from an arbitrary valid tree (inductive step for Inv_tree) --------------
+// Pool {root, a, b, c}. The shape (who is registered under whom) is a case split; the watch relation between registered
+// actors is arbitrary (symbolic booleans, installed with the real addWatcher/removeWatcher); the operation kind is a case
+// split, its arguments are symbolic (concrete calls under symbolic guards keep the tree's map keys concrete).
+
+// shape s in [0,24): a: unregistered | under root; b: unregistered | root | a; c: unregistered | root | a | b
+func vC09_shapeParent(s, i int) int { // -2 unregistered, else index of the parent in the pool
+	switch i {
+	case 1:
+		return s%2*2 - 2 // 0 -> -2, 1 -> 0
+	case 2:
+		return (s/2)%3 - 1 - btoi((s/2)%3 == 0) // 0 -> -2, 1 -> 0, 2 -> 1
+	default:
+		return (s/6)%4 - 1 - btoi((s/6)%4 == 0) // 0 -> -2, 1 -> 0, 2 -> 1, 3 -> 2
+	}
+}
+
+func btoi(b bool) int {
+	if b {
+		return 1
+	}
+	return 0
+}
 
 func vC09_treeOps() {
-	K := vCase("ops")
+	shape, op := vCase("shape"), vCase("op")
 	sys := vT_newSystem()
 	tr := sys.tree()
 	var q [4]*PID
@@ -297,57 +319,88 @@ func vC09_treeOps() {
 	var watch [4][4]bool // watch[w][t]: w watches t
 	reg[0] = true
 	parent[0], parent[1], parent[2], parent[3] = -1, -1, -1, -1
-	for k := 0; k < K; k++ {
-		op := vChoose("op", 4)
-		x, y := vChoose("x", 4), vChoose("y", 4)
-		switch op {
-		case 0: // addNode(parent x, child y)
-			err := tr.addNode(q[x], q[y])
-			if reg[x] && !reg[y] {
-				vAssert(err == nil, "addNode under a registered parent succeeds for an unregistered pid")
-				reg[y], parent[y], watch[x][y] = true, x, true
-				vCover("add")
-			} else {
-				vAssert(err != nil, "addNode fails for a registered pid or an unregistered parent")
-				if reg[y] {
-					vAssert(err == errNodeAlreadyExists, "a duplicate insertion reports errNodeAlreadyExists")
+	for i := 1; i < 4; i++ {
+		par := vC09_shapeParent(shape, i)
+		if par >= 0 && reg[par] {
+			vAssert(tr.addNode(q[par], q[i]) == nil, "actor registers under its parent")
+			reg[i], parent[i], watch[par][i] = true, par, true
+		}
+	}
+	for w := 0; w < 4; w++ {
+		for t := 0; t < 4; t++ {
+			if w == t || !reg[w] || !reg[t] {
+				continue
+			}
+			b := vNondetBool("watches")
+			if b && !watch[w][t] {
+				tr.addWatcher(q[t], q[w])
+			}
+			if !b && watch[w][t] {
+				tr.removeWatcher(q[t], q[w])
+			}
+			watch[w][t] = b
+		}
+	}
+	vC09_invOf(tr, q[:]) // base case: every state built this way satisfies Inv_tree
+
+	xx, yy := vChoose("x", 4), vChoose("y", 4)
+	if op == 3 {
+		vAssume(yy == 0) // deleteNode has one argument
+	}
+	for x := 0; x < 4; x++ {
+		for y := 0; y < 4; y++ {
+			if x != xx || y != yy || (op == 3 && y != 0) {
+				continue
+			}
+			switch op {
+			case 0: // addNode(parent x, child y)
+				err := tr.addNode(q[x], q[y])
+				if reg[x] && !reg[y] {
+					vAssert(err == nil, "addNode under a registered parent succeeds for an unregistered pid")
+					reg[y], parent[y], watch[x][y] = true, x, true
+					vCover("add")
+				} else {
+					vAssert(err != nil, "addNode fails for a registered pid or an unregistered parent")
+					if reg[y] {
+						vAssert(err == errNodeAlreadyExists, "a duplicate insertion reports errNodeAlreadyExists")
+					}
+					vCover("add-rejected")
 				}
-				vCover("add-rejected")
-			}
-		case 1: // y watches x
-			tr.addWatcher(q[x], q[y])
-			if reg[x] && reg[y] {
-				watch[y][x] = true
-				vCover("watch")
-			}
-		case 2: // y stops watching x
-			tr.removeWatcher(q[x], q[y])
-			watch[y][x] = false
-		default: // delete x with its whole subtree
-			tr.deleteNode(q[x])
-			if reg[x] {
-				var gone [4]bool
-				gone[x] = true
-				for r := 0; r < 3; r++ { // transitive closure over at most 3 levels
+			case 1: // y watches x
+				tr.addWatcher(q[x], q[y])
+				if reg[x] && reg[y] {
+					watch[y][x] = true
+					vCover("watch")
+				}
+			case 2: // y stops watching x
+				tr.removeWatcher(q[x], q[y])
+				watch[y][x] = false
+			default: // delete x with its whole subtree
+				tr.deleteNode(q[x])
+				if reg[x] {
+					var gone [4]bool
+					gone[x] = true
+					for r := 0; r < 3; r++ { // transitive closure over at most 3 levels
+						for i := 0; i < 4; i++ {
+							if reg[i] && parent[i] >= 0 && gone[parent[i]] {
+								gone[i] = true
+							}
+						}
+					}
 					for i := 0; i < 4; i++ {
-						if reg[i] && parent[i] >= 0 && gone[parent[i]] {
-							gone[i] = true
+						if gone[i] {
+							reg[i], parent[i] = false, -1
+							for j := 0; j < 4; j++ {
+								watch[i][j], watch[j][i] = false, false
+							}
 						}
 					}
+					vCover("delete")
 				}
-				for i := 0; i < 4; i++ {
-					if gone[i] {
-						reg[i], parent[i] = false, -1
-						for j := 0; j < 4; j++ {
-							watch[i][j], watch[j][i] = false, false
-						}
-					}
-				}
-				vCover("delete")
 			}
 		}
-		vC09_invOf(tr, q[:])
 	}
+	vC09_invOf(tr, q[:])
 	// the accessors agree with the model
 	nreg := 0
 	for i := 0; i < 4; i++ {
@@ -386,8 +439,5 @@ func vC09_treeOps() {
 		}
 	}
 	vAssert(tr.count() == int64(nreg), "count() is the number of registered actors")
-	if nreg >= 3 {
-		vCover("three-registered")
-	}
 	vCover("end")
 }
